@@ -108,6 +108,22 @@ def peq(a, b, subst=None):
     return poly(a, subst) == poly(b, subst)
 
 # ------------------------------------------------------------------ path views
+EXTERNAL_CRATES = ('std', 'core', 'alloc', 'cosmwasm_std', 'provwasm_std', 'rust_decimal', 'cw_storage_plus', 'semver', 'serde', 'serde_json', 'uuid', 'schemars', 'prost', 'thiserror')
+def is_local_type(name):
+    return isinstance(name, str) and name.split('::', 1)[0].lstrip('<&') not in EXTERNAL_CRATES
+
+def canon(t):
+    """constructor terms compared up to field order and up to the Rust path / name of crate-local types (a type may be renamed or moved
+    between modules without changing behaviour; its variant names and field names are what the stored JSON carries)"""
+    if isinstance(t, tuple) and t and t[0] == 'adt' and len(t) == 4:
+        ty, var = t[1], t[2]
+        if is_local_type(ty):
+            if var == ty.rsplit('::', 1)[-1]: var = '~'      # struct: the constructor is the type itself
+            ty = '~'
+        return ('adt', ty, var, tuple(sorted((n, canon(x)) for n, x in t[3])))
+    if isinstance(t, tuple): return tuple(canon(x) for x in t)
+    return t
+
 def _ordterm(t):
     return t[0] in ('add', 'sub', 'mul', 'div', 'int', 'round', 'dec', 'f', 'v', 'msg', 'rem', 'min', 'stored')
 
